@@ -95,6 +95,12 @@ def run_job(job):
             base_users = [("alice", b"same password for everybody"), ("alicf", b"same password for everybody"), ("alice", b"same password for everybodz"),
                           ("P" * 57 + "alice", b"same password for everybody"), ("P" * 57 + "bob", b"same password for everybody"),
                           ("Q" * 25 + "A", b"pw"), ("Q" * 25 + "B", b"pw"), ("R" * 41 + "A", b"pw"), ("R" * 41 + "B", b"pw"), ("S" * 200 + "A", b"pw"), ("S" * 200 + "B", b"pw"), ("carol", b"pw"), ("carol\n", b"pw"), (" carol", b"pw"), ("carol ", b"pw"), ("", b"pw"), (" ", b"pw")]
+            # an over-limit password must be refused (C12); should a registration with it complete nevertheless, it must not share
+            # its export key with a registration under its digest, its truncation or its wrapped-length prefix
+            import hashlib
+            big = b"L" * 65535 + b"!"
+            base_users += [("dora", big), ("dora", big[:65535]), ("dora", big[:1]), ("dora", hashlib.sha256(big).digest()), ("dora", hashlib.sha384(big).digest()),
+                           ("dora", hashlib.sha512(big).digest())]
             same_tape = []
             for u, pw in base_users:
                 for srv in ("S1", "S2"):
@@ -104,7 +110,10 @@ def run_job(job):
                     c = s.cmd("creg_finish", rng="fixed", state="st.cs", pw=pw, resp="st.rr", out="st.up")
                     evals += 3
                     if not (a.ok and b.ok and c.ok):
-                        V("control: registration failed", str([dict(x) for x in (a, b, c) if x.failed])[:300])
+                        if len(pw) > 65535:
+                            stats["over_limit_refused"] = stats.get("over_limit_refused", 0) + 1
+                        else:
+                            V("control: registration failed", str([dict(x) for x in (a, b, c) if x.failed])[:300])
                         continue
                     stats["registrations"] += 1
                     same_tape.append(((u, pw, srv), c.export_key, bx(c.msg)[s.sz.npk + s.sz.nh:s.sz.npk + s.sz.nh + 32]))
